@@ -543,6 +543,10 @@ def install_arrays(reg: Registry):
         x = a[0]
         return Z(x.at(z3.IntVal(0)), "real" if x.elem == "real" else x.elem)
 
+    @H("arr.reshape")
+    def arr_reshape(i, a, k, n):
+        return a[0]
+
     @H("arr.copy")
     def arr_copy(i, a, k, n):
         return a[0]
